@@ -797,6 +797,84 @@ def lost_reply_configs() -> List[Dict[str, Any]]:
 
 
 # ---------------------------------------------------------------------------
+# (3d) the read stream is FULL when a silent request times out, and the answer arrives while the error waits for room
+# ---------------------------------------------------------------------------
+RUN_FULL = "vf.checks.c12:run_full_stream"
+
+
+def run_full_stream(ctl: explorer.Ctl, cfg: Dict[str, Any]) -> Dict[str, Any]:
+    from chuk_mcp.protocol.messages.json_rpc_message import JSONRPCRequest
+    from chuk_mcp.transports.sse.sse_client import sse_client
+
+    backlog, late, rid = cfg["backlog"], cfg["late"], RIDS[cfg["id"]]
+    loop = new_loop(horizon=120)
+    q = seams.Quiescence(loop)
+    srv = Server(loop, {"kind": "ok"})
+    srv.stream.feed(ENDPOINT_FORMS["abs-path"][0].encode())
+    got: List[Any] = []
+
+    async def main():
+        with patched_httpx(srv.handler):
+            async with sse_client(_params()) as (read, write):
+                # the consumer is busy: server messages pile up in the read stream
+                for i in range(backlog):
+                    srv.stream.feed(ev({"jsonrpc": "2.0", "method": "notifications/message", "params": {"i": i}}).encode())
+                await q.settle()
+                await write.send(JSONRPCRequest(id=rid, method="tools/list"))
+                await q.settle()
+                srv.complete_post(0, {"kind": "status", "status": 202})
+                await q.settle()
+                await asyncio.sleep(TIMEOUT + 0.1)          # the server stays silent: the transport's own timeout fires
+                await q.settle()
+                if late != "never":
+                    # ... and only now the answer comes - while the timeout error may still be waiting for room in the stream
+                    srv.stream.feed(ev({"jsonrpc": "2.0", "id": rid, "result": {"late": True}}).encode())
+                    await q.settle()
+                if late == "answer-then-more-traffic":
+                    srv.stream.feed(ev({"jsonrpc": "2.0", "method": "notifications/message", "params": {"after": True}}).encode())
+                    await q.settle()
+                for _ in range(12):                          # the consumer finally drains
+                    n0 = len(got)
+                    got.extend(dump_msg(m) for m in drain(read))
+                    await q.settle()
+                    if len(got) == n0:
+                        break
+
+    status, val = loop.run_main(main())
+    errors = loop.collect_errors()
+    loop.abandon()
+    viol: List[dict] = []
+
+    def bad(cls, msg, **extra):
+        viol.append({"sig": {"class": cls, "backlog": "fills-the-read-stream" if backlog >= 100 else "leaves-room",
+                             "late_answer": late, **extra},
+                     "msg": f"{backlog} undrained server messages, request id {rid!r} answered 202 then silence until the timeout, "
+                            f"late answer: {late}: {msg}"})
+
+    if status != "ok":
+        bad("did-not-finish", f"{status} {core.clean_repr(val)}")
+        return {"outcome": status, "violations": viol}
+    mine = [m for m in got if isinstance(m, dict) and "method" not in m and m.get("id") is not None and str(m.get("id")) == str(rid)]
+    notes = [m for m in got if isinstance(m, dict) and m.get("method") == "notifications/message" and "i" in (m.get("params") or {})]
+    if [m["params"]["i"] for m in notes] != list(range(backlog)):
+        bad("backlog-not-delivered-in-order", f"{len(notes)} of {backlog} backlog notifications delivered")
+    blocked = backlog >= 100
+    # with room in the stream the error was delivered before the answer came: the existing rule (one or two) applies;
+    # with a full stream the request is still being finished when the answer comes: exactly one terminal message
+    allowed = (1,) if (blocked or late == "never") else (1, 2)
+    if len(mine) not in allowed:
+        bad("no-terminal-message" if not mine else "duplicate-terminal", f"{len(mine)} terminal messages: {mine}")
+    if errors:
+        bad("loop-error", f"{errors[:2]}")
+    return {"outcome": f"terminals={len(mine)}/{'blocked' if blocked else 'room'}", "violations": viol}
+
+
+def full_stream_configs() -> List[Dict[str, Any]]:
+    return [{"backlog": b, "late": l, "id": i} for b in (0, 50, 99, 100, 101, 150) for l in ("answer", "answer-then-more-traffic", "never")
+            for i in RIDS]
+
+
+# ---------------------------------------------------------------------------
 # (4) exit paths
 # ---------------------------------------------------------------------------
 class _BodyError(Exception):
@@ -992,6 +1070,7 @@ def run(tier: str, only=None) -> core.Result:
                             ("traffic-after-a-finished-request", RUN_AFTER, after),
                             ("event-stream-chunking", RUN_CHUNK, chunks), ("two-connections-alive", RUN_TWO, two_configs()),
                             ("post-reply-lost-after-the-server-acted", RUN_LOST, lost_reply_configs()),
+                            ("timeout-with-a-full-read-stream", RUN_FULL, full_stream_configs()),
                             ("exit-paths", RUN_EXIT, exits)):
         if only and name not in only:
             continue
@@ -1016,7 +1095,9 @@ def run(tier: str, only=None) -> core.Result:
         "- each connection must read exactly what it reads alone (its own connection-specific payload or one timeout error); big data "
         "lines (60 KiB, 64 KiB +- 1, 200 KiB; response and notification) in one piece, 16 KiB pieces, 64 KiB pieces and cut 1 byte "
         "around the 64 KiB mark; the POST's reply lost (6 httpx exceptions) although the server acted on it and answers every POST "
-        "it receives, the answer event before / after the failure / never: the message is POSTed once, exactly one terminal; exit: 4 exit paths x 4 moments x 2 cancellation delivery orders"
+        "it receives, the answer event before / after the failure / never: the message is POSTed once, exactly one terminal; a request answered 202 and then "
+        "silence while 0 / 50 / 99 / 100 / 101 / 150 undrained server messages sit in the read stream, the answer arriving after the "
+        "timeout (while the timeout error may be waiting for room), the consumer draining only afterwards; exit: 4 exit paths x 4 moments x 2 cancellation delivery orders"
     )
     res.assumptions = [
         "an answer event arriving after the transport has already reported the failed POST is outside the statement's modes: one or "
